@@ -409,7 +409,13 @@ def check_back_mesh(rec, m, back, want_n=None):
 def run_case(c):
     kind = c["kind"]
     rec = dict(kind=kind, case=c, oracle=[], tags=[], coq=None)
-    rec = globals()["run_" + kind](c, rec)
+    try:
+        rec = globals()["run_" + kind](c, rec)
+    except Exception as e:  # noqa: BLE001 - a transform of a well-formed field/mesh raised where none may
+        rec["oracle"].append("call-on-wellformed-input-raised")
+        rec.update(obs=dict(err=type(e).__name__, msg=str(e)[:200]), key=f"{kind}/raised/{type(e).__name__}",
+                   size=1)
+        rec.pop("coq", None)
     rec["oracle"] = sorted(set(rec["oracle"]))
     if rec.get("coq") is None:
         rec.pop("coq", None)     # oracle-only case (the driver sizes records by len(coq))
